@@ -17,7 +17,7 @@ LEVEL_TEXT = ("Numba's own checked builds play the role of an address sanitizer 
               "windows as wide as the sequence, single-entry rows, length-1 / disjoint vectors) runs in four worker processes - JIT, JIT + heap "
               "checker, NUMBA_BOUNDSCHECK=1, NUMBA_DISABLE_JIT=1 - and the runner compares exceptions and results across them. A worker that "
               "dies marks the case it was executing. Held = no violation on the executions produced.")
-LEVEL_NOTE = "NUMBA_BOUNDSCHECK does not check prange bodies (verified); those kernels rely on the interpreted run and the JIT-vs-interpreter comparison. Tolerance rtol 1e-5 / atol 1e-7 (float32, fastmath, summation order), exact for integer-valued outputs."
+LEVEL_NOTE = "NUMBA_BOUNDSCHECK does not check prange bodies (verified); those kernels rely on the interpreted run and the JIT-vs-interpreter comparison. Tolerance rtol 1e-5 / atol 2.5e-7 (float32, fastmath, summation order), exact for integer-valued outputs."
 RULE = ("case = one call sequence of a public estimator or distance function on an edge-steered input; an evaluation = one case executed in one "
         "mode; non-trivial when the result has >= 2 finite non-zero values; distinct = (family, case index)")
 ASSUMPTIONS = [
@@ -106,6 +106,8 @@ def gen(fam, r):
             A = [[(1.0 + i if i == j else 0.0) for j in range(m)] for i in range(n)]
         if not any(any(row) for row in A):
             A[0][0] = 1.0
+        if fam == "denoise" and m == 1:
+            A = [row + [1.0] for row in A]  # a one-column matrix has a 0-d background model (degenerate)
         return {"A": A, "approx": r.random() < 0.5, "prior_strength": r.choice([1e-4, 0.1]), "normalize": r.random() < 0.5, "em_prior": r.choice([0.3, 5.0])}
     if fam == "distances":
         from vv.props.C18 import gen_pair, gen_helper
@@ -239,6 +241,8 @@ def execute(fam, c):
             for nm in ("sparse_hellinger", "sparse_total_variation", "sparse_jensen_shannon_divergence", "sparse_symmetric_kl_divergence"):
                 out[nm] = np.array([getattr(D, nm)(i1, xs[i1], i2, ys[i2])])
             out["sparse_hellinger"] = out["sparse_hellinger"] ** 2
+            # float32 accumulation over n terms in a mode-dependent order: error bound as in C18
+            out["__atol__"] = np.array([4.0 * (len(np.union1d(i1, i2)) + 4) * 2.0**-24])
         return out
     if fam == "wasserstein":
         rs = np.random.RandomState(c["seed"])
@@ -252,7 +256,17 @@ def execute(fam, c):
         if nc < 1:
             return None
         e = V.WassersteinVectorizer(method=c["method"], metric=c["metric"], n_components=max(1, nc), reference_size=c["nref"], random_state=4, memory_size=c["memory_size"])
-        out["embedding"] = np.abs(e.fit_transform(X, vectors=vec))
+        kw = {}
+        if c["method"] != "HeuristicLinearAlgebra":
+            # explicit reference: the generated one depends on an unseeded ARPACK start vector (C13's concern)
+            rv = rs.normal(size=(c["nref"], c["dim"])) + 2.0
+            if c["metric"] == "cosine":
+                rv = rv / np.linalg.norm(rv, axis=1, keepdims=True)
+            kw = {"reference_vectors": rv, "reference_distribution": np.full(c["nref"], 1.0 / c["nref"])}
+        emb = e.fit_transform(X, vectors=vec, **kw)
+        # compare what does not depend on the sign/rotation freedom of the SVD: pairwise distances of the rows
+        out["pairwise"] = np.sqrt(np.maximum(((emb[:, None, :] - emb[None, :, :]) ** 2).sum(-1), 0))
+        out["transform"] = np.sqrt(np.maximum(((e.transform(X, vectors=vec)[:, None, :] - emb[None, :, :]) ** 2).sum(-1), 0)) if c["method"] == "HeuristicLinearAlgebra" else out["pairwise"]
         return out
     raise ValueError(fam)
 
@@ -322,7 +336,12 @@ def _cmp(a, b):
     """a, b: packed results. Returns None if equal within tolerance else description."""
     if set(a) != set(b):
         return "different outputs %s vs %s" % (sorted(a), sorted(b))
+    atol = 2.5e-7  # 2 ulp of float32 at 1.0
+    if "__atol__" in a:
+        atol = max(atol, float(a["__atol__"]["v"][0]))
     for k in a:
+        if k == "__atol__":
+            continue
         if a[k]["shape"] != b[k]["shape"]:
             return "%s: shape %s vs %s" % (k, a[k]["shape"], b[k]["shape"])
         va = np.array([float(x) for x in a[k]["v"]], dtype=float)
@@ -331,7 +350,8 @@ def _cmp(a, b):
             return "%s: size differs" % k
         if va.size == 0:
             continue
-        integer = np.all(np.isfinite(va)) and np.all(va == np.round(va)) and np.all(np.abs(va) < 2**24)
+        integer = (np.all(np.isfinite(va)) and np.all(va == np.round(va)) and np.all(np.abs(va) < 2**24)
+                   and np.all(np.isfinite(vb)) and np.all(vb == np.round(vb)) and np.any(va != 0))
         nan_a, nan_b = ~np.isfinite(va), ~np.isfinite(vb)
         if np.any(nan_a != nan_b):
             return "%s: non-finite pattern differs" % k
@@ -340,7 +360,7 @@ def _cmp(a, b):
             if not np.array_equal(fa, fb):
                 i = int(np.argmax(fa != fb))
                 return "%s: integer-valued output differs at %d: %r vs %r" % (k, i, fa[i], fb[i])
-        elif not np.allclose(fa, fb, rtol=1e-5, atol=1e-7):
+        elif not np.allclose(fa, fb, rtol=1e-5, atol=atol):
             i = int(np.argmax(np.abs(fa - fb)))
             return "%s: differs at %d: %.10g vs %.10g" % (k, i, fa[i], fb[i])
     return None
